@@ -9,14 +9,16 @@ use std::ops::*;
 #[derive(Clone, Copy, Debug)]
 pub struct Q { pub n: i64, pub d: i64 }
 impl Q { pub fn int(n: i64) -> Q { Q { n, d: 1 } } }
-impl PartialEq for Q { fn eq(&self, o: &Q) -> bool { (self.n as i128) * (o.d as i128) == (o.n as i128) * (self.d as i128) } }
+impl Q { pub fn is_nanq(&self) -> bool { self.d == 0 && self.n == 0 } pub fn is_infq(&self) -> bool { self.d == 0 && self.n != 0 } pub const NAN: Q = Q { n: 0, d: 0 }; pub const NINF: Q = Q { n: -1, d: 0 }; pub const PINF: Q = Q { n: 1, d: 0 }; }
+impl PartialEq for Q { fn eq(&self, o: &Q) -> bool { if self.is_nanq() || o.is_nanq() { return false; } if self.d == 0 || o.d == 0 { return self.d == 0 && o.d == 0 && (self.n > 0) == (o.n > 0); } (self.n as i128) * (o.d as i128) == (o.n as i128) * (self.d as i128) } }
 impl PartialOrd for Q { fn partial_cmp(&self, o: &Q) -> Option<Ordering> { ((self.n as i128) * (o.d as i128)).partial_cmp(&((o.n as i128) * (self.d as i128))) } }
-impl Add for Q { type Output = Q; fn add(self, o: Q) -> Q { Q { n: self.n * o.d + o.n * self.d, d: self.d * o.d } } }
+impl Add for Q { type Output = Q; fn add(self, o: Q) -> Q { if self.is_nanq() || o.is_nanq() { return Q::NAN; } if self.d == 0 && o.d == 0 { return if (self.n > 0) == (o.n > 0) { self } else { Q::NAN }; } if self.d == 0 { return self; } if o.d == 0 { return o; } Q { n: self.n * o.d + o.n * self.d, d: self.d * o.d } } }
 impl Sub for Q { type Output = Q; fn sub(self, o: Q) -> Q { Q { n: self.n * o.d - o.n * self.d, d: self.d * o.d } } }
-impl Mul for Q { type Output = Q; fn mul(self, o: Q) -> Q { Q { n: self.n * o.n, d: self.d * o.d } } }
+impl Mul for Q { type Output = Q; fn mul(self, o: Q) -> Q { if self.is_nanq() || o.is_nanq() { return Q::NAN; } if self.d == 0 || o.d == 0 { if self.n == 0 || o.n == 0 { return Q::NAN; } return if (self.n > 0) == (o.n > 0) { Q::PINF } else { Q::NINF }; } Q { n: self.n * o.n, d: self.d * o.d } } }
 impl Div for Q { type Output = Q; fn div(self, o: Q) -> Q { assert!(o.n != 0, "Q: division by zero"); let (n, d) = (self.n * o.d, self.d * o.n); if d < 0 { Q { n: -n, d: -d } } else { Q { n, d } } } }
 impl Rem for Q { type Output = Q; fn rem(self, _o: Q) -> Q { unreachable!() } }
 impl Neg for Q { type Output = Q; fn neg(self) -> Q { Q { n: -self.n, d: self.d } } }
+fn log2_exact(v: i64) -> Option<i64> { let mut k = 0; let mut p = 1i64; while k < 8 { if p == v { return Some(k); } p *= 2; k += 1; } None }
 impl AddAssign for Q { fn add_assign(&mut self, o: Q) { *self = *self + o; } }
 impl Zero for Q { fn zero() -> Q { Q::int(0) } fn is_zero(&self) -> bool { self.n == 0 } }
 impl One for Q { fn one() -> Q { Q::int(1) } }
@@ -30,7 +32,9 @@ impl Float for Q {
     fn min_value() -> Q { unreachable!() } fn min_positive_value() -> Q { unreachable!() } fn max_value() -> Q { unreachable!() }
     fn is_nan(self) -> bool { false } fn is_infinite(self) -> bool { false } fn is_finite(self) -> bool { true } fn is_normal(self) -> bool { true }
     fn classify(self) -> std::num::FpCategory { unreachable!() }
-    un!(floor, ceil, round, trunc, fract, signum, exp, exp2, ln, log2, log10, cbrt, sin, cos, tan, asin, acos, atan, exp_m1, ln_1p, sinh, cosh, tanh, asinh, acosh, atanh, sqrt);
+    un!(floor, ceil, round, trunc, fract, signum, exp, exp2, log2, log10, cbrt, sin, cos, tan, asin, acos, atan, exp_m1, ln_1p, sinh, cosh, tanh, asinh, acosh, atanh, sqrt);
+    /// ln in units of ln 2, exact on 2^k; ln 0 = -inf; NaN and negatives give NaN.
+    fn ln(self) -> Q { if self.is_nanq() || self.n < 0 { return Q::NAN; } if self.d == 0 { return Q::PINF; } if self.n == 0 { return Q::NINF; } match (log2_exact(self.n), log2_exact(self.d)) { (Some(a), Some(b)) => Q::int(a - b), _ => { kani_unsupported(); Q::NAN } } }
     fn abs(self) -> Q { if self.n < 0 { -self } else { self } }
     fn is_sign_positive(self) -> bool { self.n >= 0 } fn is_sign_negative(self) -> bool { self.n < 0 }
     fn mul_add(self, a: Q, b: Q) -> Q { self * a + b }
@@ -43,10 +47,48 @@ impl Float for Q {
     fn integer_decode(self) -> (u64, i16, i8) { unreachable!() }
 }
 
+#[cfg(kani)] fn kani_unsupported() { kani::assume(false); }
+#[cfg(not(kani))] fn kani_unsupported() { unreachable!() }
+
 #[cfg(kani)]
 mod proofs {
     use super::*;
     fn small() -> i64 { let b: u8 = kani::any(); (b & 3) as i64 }
+    /// one of 0, 1/4, 1/2, 1, 2, NaN
+    fn prob() -> Q { let b: u8 = kani::any(); match b & 7 { 0 => Q::int(0), 1 => Q { n: 1, d: 4 }, 2 => Q { n: 1, d: 2 }, 3 => Q::int(1), 4 => Q::int(2), 5 => Q::NAN, _ => Q::int(0) } }
+    fn term(p: Q, l: Q) -> Q { if p == Q::int(0) { Q::int(0) } else { p * l } }
+
+    #[kani::proof]
+    #[kani::unwind(20)]
+    fn entropy_q() {
+        let x = [prob(), prob(), prob()];
+        let a = Array1::from(x.to_vec());
+        let e = a.entropy().unwrap();
+        let expect = -(term(x[0], x[0].ln()) + term(x[1], x[1].ln()) + term(x[2], x[2].ln()));
+        let any_nan = x[0].is_nanq() || x[1].is_nanq() || x[2].is_nanq();
+        if any_nan { assert!(e.is_nanq()); } else { assert!(e == expect); }
+        kani::cover!(!any_nan && e == Q::int(1), "entropy one reachable");
+    }
+
+    #[kani::proof]
+    #[kani::unwind(20)]
+    fn crossent_q_mixed() {
+        let p = [prob(), prob(), prob(), prob()];
+        let q = [prob(), prob(), prob(), prob()];
+        let pa = Array2::from_shape_vec((2, 2), p.to_vec()).unwrap();
+        let qt = Array2::from_shape_vec((2, 2), q.to_vec()).unwrap();
+        let qa = qt.t(); // qa[(i,j)] = q[j*2+i]
+        let h = pa.cross_entropy(&qa).unwrap();
+        let mut acc = Q::int(0); let mut nan = false;
+        for i in 0..2 { for j in 0..2 {
+            let (pp, qq) = (p[i * 2 + j], q[j * 2 + i]);
+            let t = term(pp, qq.ln());
+            if pp.is_nanq() || t.is_nanq() { nan = true; }
+            acc = acc + t;
+        }}
+        if nan || acc.is_nanq() { assert!(h.is_nanq()); } else { assert!(h == -acc); }
+    }
+
 
     #[kani::proof]
     #[kani::unwind(18)]
